@@ -23,6 +23,10 @@ def make_system(info, rng, stratum=None):
         n, L, T = (4 if rng.random() < 0.7 else 3), 3, int(rng.integers(100, 104))
     u = int(rng.integers(0, n)); v = int((u + 1 + rng.integers(0, n - 1)) % n)
     tau = int(rng.integers(1, L + 1))
+    if isinstance(stratum, tuple) and stratum[0] == "structure":     # every relative position of source and target, every lag
+        _, diff, tau = stratum[:3]
+        n = int(rng.integers(abs(diff) + 1, 5)); L = int(rng.integers(tau, 4)); T = int(rng.integers(100, 161))
+        v = int(rng.integers(max(0, -diff), min(n, n - diff))); u = v + diff
     if info == "poisson":
         x = rng.poisson(0.5, size=(T, n)).astype(float)
         for t in range(tau, T):
@@ -43,11 +47,16 @@ def one_run(args):
     warnings.simplefilter("ignore")
     rng = np.random.default_rng(seed)
     x, n, T, L, u, v, tau = make_system(info, rng, stratum)
-    o = DC.observe(x.copy(), None, method=method, information=info, max_lag=L, n_shuffles=nsh, k_means=5)
+    names = [f"X{i}" for i in range(n)]
+    arg = x.copy()
+    if isinstance(stratum, tuple) and stratum[0] == "structure" and stratum[3] != "ndarray":
+        import pandas as pd
+        names = {"int": [7 * (n - i) for i in range(n)], "tuple": [("s", i % 2, i) for i in range(n)], "str": [f"v{chr(100 - i)}" for i in range(n)]}[stratum[3]]
+        arg = pd.DataFrame(x.copy(), columns=pd.Index(names, tupleize_cols=False))
+    o = DC.observe(arg, None, method=method, information=info, max_lag=L, n_shuffles=nsh, k_means=5)
     if "error" in o:
         return {"error": o["error"], "seed": seed}
     G = o["G"]
-    names = [f"X{i}" for i in range(n)]
     into_v = [(a, d["lag"], float(d["cmi"])) for a, b, d in G.edges(data=True) if b == names[v]]
     present = any(a == names[u] and l == tau for a, l, c in into_v)
     largest = present and max(c for a, l, c in into_v) == next(c for a, l, c in into_v if a == names[u] and l == tau)
@@ -110,6 +119,14 @@ def check(run, driver):
     for method in ("standard", "alternative"):
         for _ in range(16 if thorough else 5):
             strata.append(("gaussian", method, int(rng.integers(0, 2**31)), int(rng.choice([10, 15])), "few-shuffles"))
+    # structural sweep: every selection method x every relative position u - v x every lag (x ndarray / labelled frames):
+    # a slip in the candidate bookkeeping loses ONE such cell completely while the pooled frequency stays high
+    LABS = ["ndarray", "int", "tuple", "str"]
+    per_cell = 16 if thorough else 10
+    cells = [(method, diff, tau) for method in METHODS for diff in (-3, -2, -1, 1, 2, 3) for tau in (1, 2, 3)]
+    for ci, (method, diff, tau) in enumerate(cells):
+        for j in range(per_cell):
+            strata.append(("gaussian", method, int(rng.integers(0, 2**31)), 20, ("structure", diff, tau, LABS[(ci + j) % 4])))
     tasks += strata
     with ProcessPoolExecutor(16) as ex:
         results = list(ex.map(one_run, tasks, chunksize=1))
@@ -166,6 +183,31 @@ def check(run, driver):
             if tail2 < BUDGET / ntests:
                 run.prop_fail("the planted edge does not carry the largest conditional information among the edges into v often enough", {"estimator": info, "runs": m, "largest": big},
                               {"clause": "largest", "estimator": info}, {"binomial_lower_tail": tail2})
+    # cells of the structural sweep, each judged on its own (and per label kind, pooled over cells)
+    cellres = {}
+    for key in [k for k in bystr if isinstance(k[1], tuple)]:
+        for t, r in bystr.pop(key):
+            cellres.setdefault(("cell", t[1], key[1][1], key[1][2]), []).append((t, r))
+            cellres.setdefault(("labels", key[1][3]), []).append((t, r))
+    ncell = len(cellres)
+    for key, trs in sorted(cellres.items(), key=repr):
+        rs = [r for _, r in trs if "error" not in r]
+        for t, r in trs:
+            if key[0] == "cell":
+                run.case("gaussian-structure", [t[1], key[2], key[3], t[2]], True)
+            if "error" in r:
+                run.prop_fail("discover_network raises on a planted system", {"method": t[1], "stratum": list(map(str, t[4])), "seed": t[2]}, {"clause": "total", "estimator": "gaussian"}, r["error"])
+        m = len(rs); succ = sum(1 for r in rs if r.get("present"))
+        tail = binom_tail(m, 0.02, m - succ) if m else 1.0
+        if key[0] == "labels" or tail < 1e-3:
+            table.append({"estimator": "gaussian", "structure": [str(k) for k in key], "runs": m, "recovered": succ, "binomial_lower_tail": tail})
+        if tail < BUDGET / (ntests + ncell):
+            bad = next(r for r in rs if not r.get("present"))
+            what = (f"method {key[1]}, source index - target index = {key[2]}, lag {key[3]}" if key[0] == "cell" else f"input presented as {key[1]}")
+            run.prop_fail("the planted edge is (almost) never recovered in one structural cell of the quantifier: " + what,
+                          {"estimator": "gaussian", "cell": [str(k) for k in key], "runs": m, "recovered": succ, "example_failure": bad},
+                          {"clause": "frequency", "estimator": "gaussian", "cell": [str(k) for k in key]}, {"binomial_lower_tail": tail})
+    run.extra["structural_cells"] = {"cells": len([k for k in cellres if k[0] == "cell"]), "runs_per_cell": per_cell}
     for (info, stratum), trs in sorted(bystr.items()):
         rs = [r for _, r in trs if "error" not in r]
         for t, r in trs:
